@@ -752,37 +752,68 @@ theorem cellAt_append_newRow (lib : Lib K) (i j z : Nat) :
         simpa using this
       simp only [this, cellD_newRow]
 
-/-- Row that a custom archetype is written to: the index of its type in `REF_BLDTYPE`, or a new
-    row appended at the end. -/
-def targetRow (lib : Lib K) (c : Arch K) : Nat :=
+/-- Row that a custom archetype is written to: the index of its type in `REF_BLDTYPE`, the row
+    already appended for its (new) type, or a new row appended at the end. -/
+def targetRow (lib : Lib K) (m : RowMap) (c : Arch K) : Nat :=
   match refBldType.idxOf? c.bldtype with
   | some ti => ti
-  | none => lib.length
+  | none =>
+    match lookupRow c.bldtype m with
+    | some ti => ti
+    | none => lib.length
 
-theorem customize1_spec {lib lib' : Lib K} {zi : Nat} {c : Arch K}
-    (h : customize1 zi lib c = .ok lib') :
+/-- Does this custom append a row? -/
+def appends (m : RowMap) (c : Arch K) : Bool :=
+  (refBldType.idxOf? c.bldtype).isNone && (lookupRow c.bldtype m).isNone
+
+theorem customize1_spec {lib lib' : Lib K} {m m' : RowMap} {zi : Nat} {c : Arch K}
+    (h : customize1 zi lib m c = .ok (lib', m')) :
     c.era < 3 ∧
-    lib'.length = (if (refBldType.idxOf? c.bldtype).isSome then lib.length else lib.length + 1) ∧
-    targetRow lib c < lib'.length ∧
+    lib'.length = (if appends m c then lib.length + 1 else lib.length) ∧
+    m' = (if appends m c then m ++ [(c.bldtype, lib.length)] else m) ∧
+    targetRow lib m c < lib'.length ∧
     ∀ i j z, cellAt lib' i j z =
-      if i = targetRow lib c ∧ j = c.era ∧ z = zi then some c else cellAt lib i j z := by
+      if i = targetRow lib m c ∧ j = c.era ∧ z = zi then some c else cellAt lib i j z := by
   unfold customize1 at h
   split at h
   · cases h
   · rename_i hera
     refine ⟨by omega, ?_⟩
-    unfold targetRow
     split at h
     · rename_i ti hti
-      obtain ⟨h1, h2, h3⟩ := setCell_spec h
-      simp only [hti, Option.isSome_some, if_true]
-      exact ⟨h1, by omega, h3⟩
+      have happ : appends m c = false := by simp [appends, hti]
+      have htr : targetRow lib m c = ti := by simp [targetRow, hti]
+      split at h
+      · cases h
+      · rename_i lib1 hs
+        cases h
+        obtain ⟨h1, h2, h3⟩ := setCell_spec hs
+        rw [happ, htr]
+        exact ⟨h1, rfl, by omega, h3⟩
     · rename_i hti
-      obtain ⟨h1, h2, h3⟩ := setCell_spec h
-      simp only [hti, Option.isSome_none, Bool.false_eq_true, if_false]
-      simp only [List.length_append, List.length_cons, List.length_nil] at h1 h2
-      refine ⟨by omega, by omega, fun i j z => ?_⟩
-      rw [h3, cellAt_append_newRow]
+      split at h
+      · rename_i ti hlk
+        have happ : appends m c = false := by simp [appends, hti, hlk]
+        have htr : targetRow lib m c = ti := by simp [targetRow, hti, hlk]
+        split at h
+        · cases h
+        · rename_i lib1 hs
+          cases h
+          obtain ⟨h1, h2, h3⟩ := setCell_spec hs
+          rw [happ, htr]
+          exact ⟨h1, rfl, by omega, h3⟩
+      · rename_i hlk
+        have happ : appends m c = true := by simp [appends, hti, hlk]
+        have htr : targetRow lib m c = lib.length := by simp [targetRow, hti, hlk]
+        split at h
+        · cases h
+        · rename_i lib1 hs
+          cases h
+          obtain ⟨h1, h2, h3⟩ := setCell_spec hs
+          rw [happ, htr]
+          simp only [List.length_append, List.length_cons, List.length_nil] at h1 h2
+          refine ⟨by simpa using h1, rfl, by omega, fun i j z => ?_⟩
+          rw [h3, cellAt_append_newRow]
 
 /-! ### Index form of key uniqueness -/
 
@@ -868,12 +899,6 @@ theorem keysUnique_of_index {z : Nat} {lib : Lib K}
 
 /-! ### Invariant of the library under customisation (index form) -/
 
-/-- Custom archetype with a type name outside `REF_BLDTYPE` (gets a new row). -/
-def isNew (c : Arch K) : Bool := (refBldType.idxOf? c.bldtype).isNone
-
-/-- (type, era) of the customs that get new rows, in order. -/
-def newKeys (cs : List (Arch K)) : List Key := (cs.filter isNew).map Arch.key
-
 theorem refBldType_nodup : refBldType.Nodup := by decide
 
 theorem idxOf_some {t : String} {ti : Nat} (h : refBldType.idxOf? t = some ti) :
@@ -900,17 +925,33 @@ theorem refBldType_inj {i i' : Nat} {t : String} (h : refBldType[i]? = some t)
   obtain ⟨hi', e'⟩ := List.getElem?_eq_some_iff.1 h'
   exact (List.Nodup.getElem_inj_iff refBldType_nodup).1 (e.trans e'.symm)
 
-/-- Invariant at zone column `zi`: at least the 16 reference rows; every cell sits in the era slot
-    of its own era attribute; rows below 16 hold the reference type of their index; rows from 16 on
-    hold non-reference types, with pairwise different (type, era), all listed in `seen`. -/
-structure RefInv (zi : Nat) (lib : Lib K) (seen : List Key) : Prop where
+theorem lookupRow_append (t t' : String) (n : Nat) (m : RowMap) :
+    lookupRow t (m ++ [(t', n)]) =
+      match lookupRow t m with
+      | some i => some i
+      | none => if t' = t then some n else none := by
+  induction m with
+  | nil => simp [lookupRow]
+  | cons p rest ih =>
+    obtain ⟨t2, i2⟩ := p
+    simp only [List.cons_append, lookupRow]
+    by_cases h : t2 = t
+    · simp [h]
+    · simp only [h, if_false, ih]
+
+/-- Invariant at zone column `zi`, with the row dictionary `m` of `_customize_reference_data`:
+    at least the 16 reference rows; every cell sits in the era slot of its own era attribute; rows
+    below 16 hold the reference type of their index; a cell in a row from 16 on has a non-reference
+    type which the dictionary maps to exactly that row; the dictionary is injective and points to
+    existing rows from 16 on. -/
+structure RefInv (zi : Nat) (lib : Lib K) (m : RowMap) : Prop where
   len : 16 ≤ lib.length
   slot : ∀ i j a, j < 3 → cellAt lib i j zi = some a → a.era = j
   low : ∀ i j a, j < 3 → i < 16 → cellAt lib i j zi = some a → refBldType[i]? = some a.bldtype
   high : ∀ i j a, j < 3 → 16 ≤ i → cellAt lib i j zi = some a →
-    a.bldtype ∉ refBldType ∧ a.key ∈ seen
-  highUniq : ∀ i i' j j' a a', 16 ≤ i → 16 ≤ i' → j < 3 → j' < 3 → cellAt lib i j zi = some a →
-    cellAt lib i' j' zi = some a' → a.key = a'.key → i = i' ∧ j = j'
+    a.bldtype ∉ refBldType ∧ lookupRow a.bldtype m = some i
+  mrange : ∀ t i, lookupRow t m = some i → 16 ≤ i ∧ i < lib.length
+  minj : ∀ t t' i, lookupRow t m = some i → lookupRow t' m = some i → t = t'
 
 theorem cellAt_lt {lib : Lib K} {i j z : Nat} {a : Arch K} (h : cellAt lib i j z = some a) :
     i < lib.length := by
@@ -919,7 +960,7 @@ theorem cellAt_lt {lib : Lib K} {i j z : Nat} {a : Arch K} (h : cellAt lib i j z
   · exact hlt
   · rw [List.getElem?_eq_none hge] at h; cases h
 
-theorem RefInv.index_unique {zi : Nat} {lib : Lib K} {seen : List Key} (inv : RefInv zi lib seen) :
+theorem RefInv.index_unique {zi : Nat} {lib : Lib K} {m : RowMap} (inv : RefInv zi lib m) :
     ∀ i i' j j' a a', j < 3 → j' < 3 → cellAt lib i j zi = some a →
       cellAt lib i' j' zi = some a' → a.key = a'.key → i = i' ∧ j = j' := by
   intro i i' j j' a a' hj hj' hc hc' hk
@@ -938,44 +979,41 @@ theorem RefInv.index_unique {zi : Nat} {lib : Lib K} {seen : List Key} (inv : Re
   · have l1 := (inv.high i j a hj hi hc).1
     have l2 := inv.low i' j' a' hj' hi' hc'
     exact absurd (List.mem_of_getElem? l2) (by rw [← hk2.1]; exact l1)
-  · exact inv.highUniq i i' j j' a a' hi hi' hj hj' hc hc' hk
+  · have l1 := (inv.high i j a hj hi hc).2
+    have l2 := (inv.high i' j' a' hj' hi' hc').2
+    rw [hk2.1, l2] at l1
+    exact ⟨(Option.some.inj l1).symm, by omega⟩
 
-theorem RefInv.keysUnique {zi : Nat} {lib : Lib K} {seen : List Key} (inv : RefInv zi lib seen) :
+theorem RefInv.keysUnique {zi : Nat} {lib : Lib K} {m : RowMap} (inv : RefInv zi lib m) :
     KeysUnique zi lib := keysUnique_of_index inv.index_unique
 
-theorem RefInv.slotOK {zi : Nat} {lib : Lib K} {seen : List Key} (inv : RefInv zi lib seen) :
+theorem RefInv.slotOK {zi : Nat} {lib : Lib K} {m : RowMap} (inv : RefInv zi lib m) :
     SlotOK zi lib := slotOK_iff.2 inv.slot
 
-theorem RefInv.mono {zi : Nat} {lib : Lib K} {seen seen' : List Key} (inv : RefInv zi lib seen)
-    (hsub : ∀ k ∈ seen, k ∈ seen') : RefInv zi lib seen' :=
-  { len := inv.len, slot := inv.slot, low := inv.low,
-    high := fun i j a hj hi hc => ⟨(inv.high i j a hj hi hc).1, hsub _ (inv.high i j a hj hi hc).2⟩,
-    highUniq := inv.highUniq }
-
-/-- One custom archetype keeps the invariant, provided a new-type custom brings a new key. -/
-theorem RefInv.step {zi : Nat} {lib lib' : Lib K} {seen : List Key} {c : Arch K}
-    (inv : RefInv zi lib seen) (h : customize1 zi lib c = .ok lib')
-    (hfresh : isNew c = true → c.key ∉ seen) :
-    RefInv zi lib' (if isNew c then seen ++ [c.key] else seen) := by
-  obtain ⟨hera, hlen, htl, hcell⟩ := customize1_spec h
+/-- One custom archetype keeps the invariant (no condition on the list of customs). -/
+theorem RefInv.step {zi : Nat} {lib lib' : Lib K} {m m' : RowMap} {c : Arch K}
+    (inv : RefInv zi lib m) (h : customize1 zi lib m c = .ok (lib', m')) :
+    RefInv zi lib' m' := by
+  obtain ⟨hera, hlen, hm', htl, hcell⟩ := customize1_spec h
+  have hl := inv.len
+  have key : ∀ i j a, cellAt lib' i j zi = some a →
+      (i = targetRow lib m c ∧ j = c.era ∧ a = c) ∨ cellAt lib i j zi = some a := by
+    intro i j a hc
+    rw [hcell] at hc
+    by_cases hij : i = targetRow lib m c ∧ j = c.era
+    · simp only [hij, and_self, if_true, Option.some.injEq] at hc
+      exact Or.inl ⟨hij.1, hij.2, hc.symm⟩
+    · have : ¬ (i = targetRow lib m c ∧ j = c.era ∧ zi = zi) := fun e => hij ⟨e.1, e.2.1⟩
+      rw [if_neg this] at hc; exact Or.inr hc
   cases hidx : refBldType.idxOf? c.bldtype with
   | some ti =>
     obtain ⟨hti, hty⟩ := idxOf_some hidx
-    have hnew : isNew c = false := by simp [isNew, hidx]
-    have htr : targetRow lib c = ti := by simp [targetRow, hidx]
-    simp only [hidx, Option.isSome_some, if_true] at hlen
-    simp only [hnew, Bool.false_eq_true, if_false]
-    have key : ∀ i j a, cellAt lib' i j zi = some a →
-        (i = ti ∧ j = c.era ∧ a = c) ∨ cellAt lib i j zi = some a := by
-      intro i j a hc
-      rw [hcell, htr] at hc
-      by_cases hij : i = ti ∧ j = c.era
-      · simp only [hij, and_self, if_true, Option.some.injEq] at hc
-        exact Or.inl ⟨hij.1, hij.2, hc.symm⟩
-      · have : ¬ (i = ti ∧ j = c.era ∧ zi = zi) := fun e => hij ⟨e.1, e.2.1⟩
-        rw [if_neg this] at hc; exact Or.inr hc
-    have hl := inv.len
-    refine ⟨by omega, ?_, ?_, ?_, ?_⟩
+    have happ : appends m c = false := by simp [appends, hidx]
+    have htr : targetRow lib m c = ti := by simp [targetRow, hidx]
+    simp only [happ, Bool.false_eq_true, if_false] at hlen hm'
+    subst hm'
+    rw [htr] at key
+    refine ⟨by omega, ?_, ?_, ?_, ?_, inv.minj⟩
     · intro i j a hj hc
       rcases key i j a hc with ⟨_, h2, h3⟩ | h'
       · rw [h3, h2]
@@ -988,101 +1026,125 @@ theorem RefInv.step {zi : Nat} {lib lib' : Lib K} {seen : List Key} {c : Arch K}
       rcases key i j a hc with ⟨h1, _, _⟩ | h'
       · omega
       · exact inv.high i j a hj hi h'
-    · intro i i' j j' a a' hi hi' hj hj' hc hc' hk
-      rcases key i j a hc with ⟨h1, _, _⟩ | h'
-      · omega
-      · rcases key i' j' a' hc' with ⟨h1, _, _⟩ | h''
-        · omega
-        · exact inv.highUniq i i' j j' a a' hi hi' hj hj' h' h'' hk
+    · intro t i hlk; have := inv.mrange t i hlk; omega
   | none =>
-    have hnew : isNew c = true := by simp [isNew, hidx]
-    have htr : targetRow lib c = lib.length := by simp [targetRow, hidx]
     have hnotref := idxOf_none hidx
-    simp only [hidx, Option.isSome_none, Bool.false_eq_true, if_false] at hlen
-    simp only [hnew, if_true]
-    have hfr := hfresh hnew
-    have key : ∀ i j a, cellAt lib' i j zi = some a →
-        (i = lib.length ∧ j = c.era ∧ a = c) ∨ (i < lib.length ∧ cellAt lib i j zi = some a) := by
-      intro i j a hc
-      rw [hcell, htr] at hc
-      by_cases hij : i = lib.length ∧ j = c.era
-      · simp only [hij, and_self, if_true, Option.some.injEq] at hc
-        exact Or.inl ⟨hij.1, hij.2, hc.symm⟩
-      · have : ¬ (i = lib.length ∧ j = c.era ∧ zi = zi) := fun e => hij ⟨e.1, e.2.1⟩
-        rw [if_neg this] at hc; exact Or.inr ⟨cellAt_lt hc, hc⟩
-    have hl := inv.len
-    refine ⟨by omega, ?_, ?_, ?_, ?_⟩
-    · intro i j a hj hc
-      rcases key i j a hc with ⟨_, h2, h3⟩ | ⟨_, h'⟩
-      · rw [h3, h2]
-      · exact inv.slot i j a hj h'
-    · intro i j a hj hi hc
-      rcases key i j a hc with ⟨h1, _, _⟩ | ⟨_, h'⟩
-      · omega
-      · exact inv.low i j a hj hi h'
-    · intro i j a hj hi hc
-      rcases key i j a hc with ⟨_, _, h3⟩ | ⟨_, h'⟩
-      · rw [h3]; exact ⟨hnotref, by simp⟩
-      · exact ⟨(inv.high i j a hj hi h').1, List.mem_append_left _ (inv.high i j a hj hi h').2⟩
-    · intro i i' j j' a a' hi hi' hj hj' hc hc' hk
-      rcases key i j a hc with ⟨h1, h2, h3⟩ | ⟨h1, h'⟩
-      · rcases key i' j' a' hc' with ⟨h1', h2', _⟩ | ⟨_, h''⟩
+    cases hlk : lookupRow c.bldtype m with
+    | some ti =>
+      have happ : appends m c = false := by simp [appends, hidx, hlk]
+      have htr : targetRow lib m c = ti := by simp [targetRow, hidx, hlk]
+      simp only [happ, Bool.false_eq_true, if_false] at hlen hm'
+      subst hm'
+      rw [htr] at key
+      have hr := inv.mrange _ _ hlk
+      refine ⟨by omega, ?_, ?_, ?_, ?_, inv.minj⟩
+      · intro i j a hj hc
+        rcases key i j a hc with ⟨_, h2, h3⟩ | h'
+        · rw [h3, h2]
+        · exact inv.slot i j a hj h'
+      · intro i j a hj hi hc
+        rcases key i j a hc with ⟨h1, _, _⟩ | h'
         · omega
-        · have := (inv.high i' j' a' hj' hi' h'').2
-          rw [← hk, h3] at this; exact absurd this hfr
-      · rcases key i' j' a' hc' with ⟨_, _, h3'⟩ | ⟨_, h''⟩
-        · have := (inv.high i j a hj hi h').2
-          rw [hk, h3'] at this; exact absurd this hfr
-        · exact inv.highUniq i i' j j' a a' hi hi' hj hj' h' h'' hk
+        · exact inv.low i j a hj hi h'
+      · intro i j a hj hi hc
+        rcases key i j a hc with ⟨h1, _, h3⟩ | h'
+        · rw [h3, h1]; exact ⟨hnotref, hlk⟩
+        · exact inv.high i j a hj hi h'
+      · intro t i hlk'; have := inv.mrange t i hlk'; omega
+    | none =>
+      have happ : appends m c = true := by simp [appends, hidx, hlk]
+      have htr : targetRow lib m c = lib.length := by simp [targetRow, hidx, hlk]
+      simp only [happ, if_true] at hlen hm'
+      subst hm'
+      rw [htr] at key
+      refine ⟨by omega, ?_, ?_, ?_, ?_, ?_⟩
+      · intro i j a hj hc
+        rcases key i j a hc with ⟨_, h2, h3⟩ | h'
+        · rw [h3, h2]
+        · exact inv.slot i j a hj h'
+      · intro i j a hj hi hc
+        rcases key i j a hc with ⟨h1, _, _⟩ | h'
+        · omega
+        · exact inv.low i j a hj hi h'
+      · intro i j a hj hi hc
+        rw [lookupRow_append]
+        rcases key i j a hc with ⟨h1, _, h3⟩ | h'
+        · rw [h3, hlk, h1]; simp [hnotref]
+        · have := inv.high i j a hj hi h'
+          rw [this.2]; exact ⟨this.1, rfl⟩
+      · intro t i hlk'
+        rw [lookupRow_append] at hlk'
+        cases hm : lookupRow t m with
+        | some i0 =>
+          rw [hm] at hlk'
+          simp only [Option.some.injEq] at hlk'
+          have := inv.mrange t _ hm; omega
+        | none =>
+          rw [hm] at hlk'
+          by_cases ht : c.bldtype = t
+          · simp only [ht, if_true, Option.some.injEq] at hlk'; omega
+          · simp [ht] at hlk'
+      · intro t t' i h1 h2
+        rw [lookupRow_append] at h1 h2
+        cases hm : lookupRow t m with
+        | some i0 =>
+          rw [hm] at h1
+          simp only [Option.some.injEq] at h1
+          cases hm' : lookupRow t' m with
+          | some i1 =>
+            rw [hm'] at h2
+            simp only [Option.some.injEq] at h2
+            exact inv.minj t t' i (by rw [hm, h1]) (by rw [hm', h2])
+          | none =>
+            rw [hm'] at h2
+            by_cases ht' : c.bldtype = t'
+            · simp only [ht', if_true, Option.some.injEq] at h2
+              have := inv.mrange t _ hm; omega
+            · simp [ht'] at h2
+        | none =>
+          rw [hm] at h1
+          by_cases ht : c.bldtype = t
+          · simp only [ht, if_true, Option.some.injEq] at h1
+            cases hm' : lookupRow t' m with
+            | some i1 =>
+              rw [hm'] at h2
+              simp only [Option.some.injEq] at h2
+              have := inv.mrange t' _ hm'; omega
+            | none =>
+              rw [hm'] at h2
+              by_cases ht' : c.bldtype = t'
+              · rw [← ht, ← ht']
+              · simp [ht'] at h2
+          · simp [ht] at h1
 
-theorem newKeys_cons (c : Arch K) (cs : List (Arch K)) :
-    newKeys (c :: cs) = if isNew c then c.key :: newKeys cs else newKeys cs := by
-  unfold newKeys
-  by_cases h : isNew c = true <;> simp [List.filter_cons, h]
-
-/-- The whole `ref_bem_vector` keeps the invariant when the new-type customs have pairwise different
-    (type, era), different from those already present in rows ≥ 16. -/
-theorem RefInv.loop {zi : Nat} {cs : List (Arch K)} {lib lib' : Lib K} {seen : List Key}
-    (inv : RefInv zi lib seen) (h : customizeLoop zi cs lib = .ok lib')
-    (hnd : (seen ++ newKeys cs).Nodup) : RefInv zi lib' (seen ++ newKeys cs) := by
-  induction cs generalizing lib seen with
-  | nil => simp only [customizeLoop] at h; cases h; simpa [newKeys] using inv
+/-- The whole `ref_bem_vector` keeps the invariant — for every list of customs. -/
+theorem RefInv.loop {zi : Nat} {cs : List (Arch K)} {lib lib' : Lib K} {m m' : RowMap}
+    (inv : RefInv zi lib m) (h : customizeLoop zi cs lib m = .ok (lib', m')) :
+    RefInv zi lib' m' := by
+  induction cs generalizing lib m with
+  | nil => simp only [customizeLoop] at h; cases h; exact inv
   | cons c cs ih =>
     simp only [customizeLoop] at h
     split at h
     · cases h
-    · rename_i lib1 h1
-      rw [newKeys_cons] at hnd ⊢
-      by_cases hn : isNew c = true
-      · simp only [hn, if_true] at hnd ⊢
-        have hfresh : c.key ∉ seen := by
-          intro hm
-          rw [List.nodup_append] at hnd
-          exact hnd.2.2 _ hm _ (List.mem_cons_self ..) rfl
-        have inv1 := inv.step h1 (fun _ => hfresh)
-        simp only [hn, if_true] at inv1
-        have := ih inv1 h (by simpa using hnd)
-        simpa using this
-      · simp only [hn, Bool.false_eq_true, if_false] at hnd ⊢
-        have inv1 := inv.step h1 (fun e => absurd e hn)
-        simp only [hn, Bool.false_eq_true, if_false] at inv1
-        exact ih inv1 h hnd
+    · rename_i lib1 m1 h1
+      exact ih (inv.step h1) h
 
 /-- Every cell of the customised library is an untouched cell of the original one or one of the
     custom archetypes. -/
-theorem customizeLoop_cells {zi : Nat} {cs : List (Arch K)} {lib lib' : Lib K}
-    (h : customizeLoop zi cs lib = .ok lib') :
+theorem customizeLoop_cells {zi : Nat} {cs : List (Arch K)} {lib lib' : Lib K} {m m' : RowMap}
+    (h : customizeLoop zi cs lib m = .ok (lib', m')) :
     ∀ i j a, cellAt lib' i j zi = some a → cellAt lib i j zi = some a ∨ a ∈ cs := by
-  induction cs generalizing lib with
+  induction cs generalizing lib m with
   | nil => simp only [customizeLoop] at h; cases h; intro i j a hc; exact Or.inl hc
   | cons c cs ih =>
     simp only [customizeLoop] at h
     split at h
     · cases h
-    · rename_i lib1 h1
+    · rename_i lib1 m1 h1
       intro i j a hc
       rcases ih h i j a hc with h' | h'
-      · obtain ⟨_, _, _, hcell⟩ := customize1_spec h1
+      · obtain ⟨_, _, _, _, hcell⟩ := customize1_spec h1
         rw [hcell] at h'
         split at h'
         · cases h'; exact Or.inr (List.mem_cons_self ..)
@@ -1129,102 +1191,84 @@ theorem lastWithKey_some {k : Key} {cs : List (Arch K)} {c : Arch K}
       · cases h
 
 /-- A cell survives the rest of the customisation when no later custom carries its key. -/
-theorem RefInv.survive {zi : Nat} {cs : List (Arch K)} {lib lib' : Lib K} {seen : List Key}
-    (inv : RefInv zi lib seen) (h : customizeLoop zi cs lib = .ok lib')
-    (hnd : (seen ++ newKeys cs).Nodup) {i j : Nat} {a : Arch K} (hj : j < 3)
+theorem RefInv.survive {zi : Nat} {cs : List (Arch K)} {lib lib' : Lib K} {m m' : RowMap}
+    (inv : RefInv zi lib m) (h : customizeLoop zi cs lib m = .ok (lib', m'))
+    {i j : Nat} {a : Arch K} (hj : j < 3)
     (hc : cellAt lib i j zi = some a) (hlast : lastWithKey a.key cs = none) :
     cellAt lib' i j zi = some a := by
-  induction cs generalizing lib seen with
+  induction cs generalizing lib m with
   | nil => simp only [customizeLoop] at h; cases h; exact hc
   | cons c cs ih =>
     simp only [customizeLoop] at h
     split at h
     · cases h
-    · rename_i lib1 h1
+    · rename_i lib1 m1 h1
       have hne : c.key ≠ a.key := lastWithKey_none hlast c (List.mem_cons_self ..)
       have hlast' : lastWithKey a.key cs = none := by
         simp only [lastWithKey] at hlast
         split at hlast
         · cases hlast
         · rename_i hr; exact hr
-      obtain ⟨_, _, _, hcell⟩ := customize1_spec h1
+      obtain ⟨_, _, _, _, hcell⟩ := customize1_spec h1
       have hc1 : cellAt lib1 i j zi = some a := by
         rw [hcell, if_neg]
         · exact hc
         · rintro ⟨hi, hjj, _⟩
+          have e2 : a.era = j := inv.slot i j a hj hc
           cases hidx : refBldType.idxOf? c.bldtype with
           | some ti =>
             obtain ⟨hti, hty⟩ := idxOf_some hidx
-            have : targetRow lib c = ti := by simp [targetRow, hidx]
+            have : targetRow lib m c = ti := by simp [targetRow, hidx]
             rw [this] at hi
             have l1 := inv.low i j a hj (by omega) hc
-            rw [hi] at l1
-            rw [hty] at l1
+            rw [hi, hty] at l1
             have e1 : c.bldtype = a.bldtype := Option.some.inj l1
-            have e2 : a.era = j := inv.slot i j a hj hc
             apply hne
             simp only [Arch.key, e1, Prod.mk.injEq, true_and]; omega
           | none =>
-            have : targetRow lib c = lib.length := by simp [targetRow, hidx]
-            rw [this] at hi
-            have := cellAt_lt hc
-            omega
-      rw [newKeys_cons] at hnd
-      by_cases hn : isNew c = true
-      · simp only [hn, if_true] at hnd
-        have hfresh : c.key ∉ seen := by
-          intro hm
-          rw [List.nodup_append] at hnd
-          exact hnd.2.2 _ hm _ (List.mem_cons_self ..) rfl
-        have inv1 := inv.step h1 (fun _ => hfresh)
-        simp only [hn, if_true] at inv1
-        exact ih inv1 h (by simpa using hnd) hc1 hlast'
-      · simp only [hn, Bool.false_eq_true, if_false] at hnd
-        have inv1 := inv.step h1 (fun e => absurd e hn)
-        simp only [hn, Bool.false_eq_true, if_false] at inv1
-        exact ih inv1 h hnd hc1 hlast'
+            cases hlk : lookupRow c.bldtype m with
+            | some ti =>
+              have : targetRow lib m c = ti := by simp [targetRow, hidx, hlk]
+              rw [this] at hi
+              have hr := inv.mrange _ _ hlk
+              have l1 := (inv.high i j a hj (by omega) hc).2
+              rw [hi] at l1
+              have e1 : a.bldtype = c.bldtype := inv.minj _ _ _ l1 hlk
+              apply hne
+              simp only [Arch.key, e1, Prod.mk.injEq, true_and]; omega
+            | none =>
+              have : targetRow lib m c = lib.length := by simp [targetRow, hidx, hlk]
+              rw [this] at hi
+              have := cellAt_lt hc
+              omega
+      exact ih (inv.step h1) h hc1 hlast'
 
 /-- The last custom with a given key is present in the customised library. -/
-theorem RefInv.last_present {zi : Nat} {cs : List (Arch K)} {lib lib' : Lib K} {seen : List Key}
-    (inv : RefInv zi lib seen) (h : customizeLoop zi cs lib = .ok lib')
-    (hnd : (seen ++ newKeys cs).Nodup) {k : Key} {c : Arch K} (hl : lastWithKey k cs = some c) :
+theorem RefInv.last_present {zi : Nat} {cs : List (Arch K)} {lib lib' : Lib K} {m m' : RowMap}
+    (inv : RefInv zi lib m) (h : customizeLoop zi cs lib m = .ok (lib', m'))
+    {k : Key} {c : Arch K} (hl : lastWithKey k cs = some c) :
     ∃ i, cellAt lib' i c.era zi = some c := by
-  induction cs generalizing lib seen with
+  induction cs generalizing lib m with
   | nil => cases hl
   | cons c0 cs ih =>
     simp only [customizeLoop] at h
     split at h
     · cases h
-    · rename_i lib1 h1
-      obtain ⟨hera, _, _, hcell⟩ := customize1_spec h1
-      rw [newKeys_cons] at hnd
-      have step : ∃ seen1, RefInv zi lib1 seen1 ∧ (seen1 ++ newKeys cs).Nodup := by
-        by_cases hn : isNew c0 = true
-        · simp only [hn, if_true] at hnd
-          have hfresh : c0.key ∉ seen := by
-            intro hm
-            rw [List.nodup_append] at hnd
-            exact hnd.2.2 _ hm _ (List.mem_cons_self ..) rfl
-          have inv1 := inv.step h1 (fun _ => hfresh)
-          simp only [hn, if_true] at inv1
-          exact ⟨_, inv1, by simpa using hnd⟩
-        · simp only [hn, Bool.false_eq_true, if_false] at hnd
-          have inv1 := inv.step h1 (fun e => absurd e hn)
-          simp only [hn, Bool.false_eq_true, if_false] at inv1
-          exact ⟨_, inv1, hnd⟩
-      obtain ⟨seen1, inv1, hnd1⟩ := step
+    · rename_i lib1 m1 h1
+      obtain ⟨hera, _, _, _, hcell⟩ := customize1_spec h1
+      have inv1 := inv.step h1
       simp only [lastWithKey] at hl
       split at hl
       · rename_i c' hr
         cases hl
-        exact ih inv1 h hnd1 hr
+        exact ih inv1 h hr
       · rename_i hr
         split at hl
         · rename_i hk0
           cases hl
-          have hc1 : cellAt lib1 (targetRow lib c) c.era zi = some c := by
+          have hc1 : cellAt lib1 (targetRow lib m c) c.era zi = some c := by
             rw [hcell]; simp
-          exact ⟨_, inv1.survive h hnd1 hera hc1 (by rw [hk0]; exact hr)⟩
+          exact ⟨_, inv1.survive h hera hc1 (by rw [hk0]; exact hr)⟩
         · cases hl
 
 /-! ### The shape of the shipped library, and decidable checks of the hypotheses -/
@@ -1237,9 +1281,11 @@ def RefLib (zi : Nat) (lib : Lib K) : Prop :=
 
 theorem RefLib.inv {zi : Nat} {lib : Lib K} (h : RefLib zi lib) : RefInv zi lib [] := by
   obtain ⟨hlen, hc⟩ := h
-  refine ⟨by omega, fun i j a hj h => (hc i j a hj h).1, fun i j a hj _ h => (hc i j a hj h).2, ?_, ?_⟩
+  refine ⟨by omega, fun i j a hj h => (hc i j a hj h).1, fun i j a hj _ h => (hc i j a hj h).2,
+    ?_, ?_, ?_⟩
   · intro i j a _ hi h; have := cellAt_lt h; omega
-  · intro i i' j j' a a' hi _ _ _ h; have := cellAt_lt h; omega
+  · intro t i h; simp [lookupRow] at h
+  · intro t t' i h; simp [lookupRow] at h
 
 def refLibB (zi : Nat) (lib : Lib K) : Bool :=
   lib.length == 16 && (List.range 16).all fun i => (List.range 3).all fun j =>
